@@ -6,7 +6,7 @@ import math
 import numpy as np
 
 from . import ref
-from .impl import Pen, Dfit, compiled_df, compiled_pen, classify_exc, gen_matrix, to_csc, csc_tokens, seed_numba
+from .impl import Pen, Dfit, compiled_df, compiled_pen, classify_exc, gen_matrix, to_csc, case_csc, csc_tokens, seed_numba
 from .proto import fb, b as fbool, vec, mat, decode, close, same, canon
 
 ACD_DATAFITS = ("quadratic", "wquadratic", "logistic", "huber", "svc")
@@ -24,7 +24,7 @@ class CDCase:
     def describe(self):
         return dict(solver="AndersonCD", datafit=self.df.describe(), penalty=self.pen.describe(),
                     weights=self.wts.tolist(), X=self.X.tolist(), y=self.y.tolist(), sw=self.sw.tolist(),
-                    knobs=self.knobs, sparse=self.sparse,
+                    knobs=self.knobs, sparse=self.sparse, explicit_zeros=getattr(self, 'explicit_zeros', None),
                     w_init=None if self.w_init is None else np.asarray(self.w_init).tolist(), label=self.label)
 
     def signature(self, **kw):
@@ -57,7 +57,7 @@ def run_acd(case):
     datafit = compiled_df(case.df, case.sw)
     weighted = case.pen.kind in Pen.WEIGHTED
     penalty = compiled_pen(case.pen, case.wts if weighted else None)
-    Xin = to_csc(case.X) if case.sparse else np.asfortranarray(case.X)
+    Xin = case_csc(case) if case.sparse else np.asfortranarray(case.X)
     w_init = Xw_init = None
     if case.w_init is not None:
         w_init = np.array(case.w_init, dtype=float)
@@ -93,7 +93,7 @@ def check_trace_acd(case, res, rep, lean_drive):
     K = case.knobs
     fixpoint = K.get("ws_strategy", "subdiff") == "fixpoint"
     prob = case.prob_tokens()
-    csc = csc_tokens(to_csc(case.X)) if case.sparse else None
+    csc = csc_tokens(case_csc(case)) if case.sparse else None
     reqs = []   # (line, expected tokens, what, comparison mode)
     ctl = []    # control-flow findings
 
@@ -606,5 +606,7 @@ def gen_case(rng, df_kinds=None, pen_kinds=None, degenerate=False, warm=None, bu
         mode = "medium"
     sparse = rng.random() < 0.35
     c = CDCase(df, pen, wts, X, y, sw, knobs, sparse=sparse, w_init=w_init, label=mode)
+    if sparse and rng.random() < 0.4:
+        c.explicit_zeros = rng.randrange(1 << 30)     # CSC with explicitly stored zeros (null columns included)
     c.explicit_buffers = rng.random() < 0.6
     return c
